@@ -67,6 +67,10 @@ def run(chk):
 
     # predicates: exhaustive over the 7-class alphabet up to MAXLEN
     strs = [{"s": s} for s in str_relid.enumerate_strings(MAXLEN[chk.tier])]
+    # ... and long strings whose only defect (or only merit) lies beyond a few hundred characters
+    strs += [{"s": s} for s in ["a" * 255 + "A", "a" * 300, "a" * 254 + "-" + "b" * 10, "1." * 150 + "1", "1" * 256 + ".x", "x" * 255 + "-",
+                                "a" * 256 + "-", "a" * 1000, "A" * 1000, "ab1-" * 80 + "z", "1.2." * 70 + "9", "1.2." * 70 + "x",
+                                "a" * 254 + "-b", "a" * 255 + "-b", "9" * 254 + ".1", "9" * 255 + ".1", "a" * 700 + "@", "r" + "0" * 300 + "."]]
 
     def oracle_pred(c, a):
         s = c["s"]
